@@ -98,7 +98,7 @@ func TestNextAnchors(t *testing.T) {
 	}
 	from := time.Date(2004, 12, 1, 0, 0, 0, 0, time.UTC).Unix()
 	to := time.Date(2037, 2, 1, 0, 0, 0, 0, time.UTC).Unix()
-	z, err := ScanZone("America/New_York", ny, from, to)
+	z, err := ScanZone("America/New_York", ny, from, to, true)
 	if err != nil {
 		t.Fatal(err)
 	}
